@@ -437,7 +437,7 @@ def observe(r):
     m = T_RE.search(out)
     if m:
         ev += [(int(a), int(b), val(c)) for a, b, c in TRI_RE.findall(m.group(1))]
-    ev.sort()
+    ev.sort(key=lambda e: e[0])
     if [e[0] for e in ev] != list(range(1, len(ev) + 1)):
         return ('garbled', 'sequence numbers %s' % [e[0] for e in ev][:20])
     decls = {}
@@ -537,7 +537,7 @@ def short_path(path):
     for p in path:
         if not out or out[-1] != p:
             out.append(p)
-    return '>'.join(out[-3:]) if out else 'top-level'
+    return out[-1] if out else 'top-level'
 
 
 def unexplained_sig(ref, obs, where):
@@ -593,8 +593,9 @@ def judge(ctx, prog, r, origin):
         return
     ctx.seen('explained-by', '+'.join(d))
     ctx.stat('deviating-' + origin)
-    ctx.violation('deviation|' + '+'.join(d), case,
-                  {'expected': ref, 'observed': obs, 'switches-that-reproduce-it': list(d)})
+    for name in d:      # one signature per switch: the combinations that occur are too many to list (> 35)
+        ctx.violation('deviation|' + name, case,
+                      {'expected': ref, 'observed': obs, 'switches-that-reproduce-it': list(d)})
 
 
 def check_case(ctx, case):
